@@ -250,6 +250,8 @@ _CONFIGS = [
     {},
     {"verbose": True, "delta": 0.5, "stiff_states": ["m"], "scheme": ["hybrid_rush_larsen"],
      "python": {"format": "none", "backend": "jax"}, "c": {"to": ".c", "format": "none"}},
+    # legal values that happen to be falsy: they override the command line like any other value
+    {"verbose": False, "delta": 0.0, "stiff_states": [], "scheme": []},
 ]
 _CMD_COMMON = dict(
     ret="PyNone", raises={"Exception": "maybe", "ValueError": "maybe", "ODEFileNotFound": "maybe", "GotranxError": "maybe"},
@@ -326,7 +328,7 @@ def _convert_expected(ctx, st, fname, to, outname, remove_unused, jax, verbose, 
               "verbose": verbose, "stiff_states": stiff_states, "delta": delta}
     out = []
     if to in _C_SET:
-        out.append(("gotran2c.main", dict(common, suffix=".h" if to == "c" else to)))  # the suffix is always a valid file suffix
+        out.append(("gotran2c.main", dict(common, suffix=".c" if to == "c" else to)))  # the suffix is always a valid file suffix
     if to in _PY_SET:
         bk = ctx.ev_contract_expr("ite(jax, 'jax', 'numpy')", I.State({"jax": jax}, st.pc, st.decisions, st.assumed))
         out.append(("gotran2py.main", dict(common, backend=bk, suffix=".py")))
